@@ -337,8 +337,15 @@ def run_corrupt(ctx, idx):
                 # is such a cue may not.
                 def canon(vs):
                     vs = [v for v in vs if not re.search(drop, v)]
+                    if any(v.startswith("Features: wrong event count") for v in vs):
+                        # with inconsistent feature lengths the (re-derived) event count
+                        # decides whether the stored index still enumerates 1..N
+                        vs = [v for v in vs if "index feature is not enumerated" not in v]
+                    # (computing ml_class from ml_score features of different lengths is
+                    # reported with numpy's "could not broadcast" text: same family)
                     return sorted(set("Features: wrong event count" if
-                                      v.startswith("Features: wrong event count") else v
+                                      v.startswith("Features: wrong event count")
+                                      or "could not broadcast" in v else v
                                       for v in vs))
                 viol, viol2 = canon(viol), canon(viol2)
                 ctx.check("c13.copy_invariance", viol2 == viol,
